@@ -146,16 +146,30 @@ def c19_classify(tool, data, run):
     return "violation", run.cls
 
 
-def c19_execute(case, plan, env):
+def c19_execute(case, plan, env, budget_scale=None):
     data, dmg, eff = faults.apply_plan(plan, case.data)
-    run = simulate(case.tool, case.opts, data, env, damaged=dmg, boundaries=case.offsets())
+    budget = None
+    if budget_scale:
+        budget = max(100_000, int(decsim.step_budget(case.tool, case.opts, data) * budget_scale))
+    run = simulate(case.tool, case.opts, data, env, damaged=dmg, boundaries=case.offsets(),
+                   budget=budget)
     verdict, cls = c19_classify(case.tool, data, run)
     return data, dmg, eff, run, verdict, cls
 
 
-def c19_one(seed, index):
+def c19_one(seed, index, hangs=None):
+    """hangs: per-chunk count of confirmed hangs by tool.  Once a tool has hung twice in this
+    chunk (so a violation is already certain to be reported for it) further runs of that tool
+    get a twentieth of the step budget and, if they exceed it, are recorded as `hang_suspect`
+    instead of being run to the full budget.  Never happens on a tree without hangs."""
     case, plan, env = c19_case(seed, index)
-    data, dmg, eff, run, verdict, cls = c19_execute(case, plan, env)
+    reduced = hangs is not None and hangs.get(case.tool, 0) >= 2
+    data, dmg, eff, run, verdict, cls = c19_execute(case, plan, env, 0.05 if reduced else None)
+    if cls == "hang":
+        if reduced:
+            verdict, cls = "suspect", "hang_suspect"
+        elif hangs is not None:
+            hangs[case.tool] = hangs.get(case.tool, 0) + 1
     observed = run.consumed or run.short is not None
     rec = {
         "i": index, "fmt": case.fmt, "tool": case.tool,
@@ -195,7 +209,8 @@ def _where(case, plan):
 def c19_chunk(arg):
     seed, a, b = arg
     warm()
-    return [c19_one(seed, i) for i in range(a, b)]
+    hangs = {}
+    return [c19_one(seed, i, hangs) for i in range(a, b)]
 
 
 def c19_signature(tool, cls, run):
@@ -236,8 +251,8 @@ def c19_minimise(arg):
                 not any(f["kind"] == "pipe_eof" for f in plan) and still(plan, e2):
             env = e2
             break
-    # 3. numeric shrink per fault
-    for k in range(len(plan)):
+    # 3. numeric shrink per fault (skipped for hangs: every attempt costs a full step budget)
+    for k in range(len(plan) if cls != "hang" else 0):
         for key in ("at", "val", "n", "bit", "sector", "keep"):
             if key not in plan[k]:
                 continue
@@ -265,7 +280,7 @@ def c19_minimise(arg):
             flat[i] = 0
     base = formats.Case(case.fmt, case.opts, bytes(flat), case.smap, case.dims, case.params,
                         case.skip, case.alt_dims)
-    if still(plan, env, base):
+    if cls != "hang" and still(plan, env, base):
         case = base
     data, dmg, eff, run, verdict, cls = c19_execute(case, plan, env)
     doc = c19_replay_doc(seed, index, case, plan, env, data, run, cls)
@@ -311,26 +326,39 @@ def minimal_cases():
 
 
 def _minimal_cases():
-    """The minimal valid file of each format, for the exhaustive every-prefix sweep."""
+    """Small but structurally complete valid files of each format for the exhaustive
+    every-prefix sweep, plus a few full-size ones swept with a stride."""
     import random
     out = []
     r = random.Random(12345)
 
-    def small(fmt, **kw):
+    def pick(fmt, lo, hi, want=None, **kw):
         best = None
-        for _ in range(40):
+        for _ in range(300):
             c = formats.GEN[fmt](r, **kw)
-            if best is None or len(c.data) < len(best.data):
+            if want and not want(c):
+                continue
+            if lo <= len(c.data) <= hi and (best is None or len(c.data) < len(best.data)):
                 best = c
+        if best is None:
+            raise HarnessFailure("no %s case of %d..%d bytes" % (fmt, lo, hi))
         return best
-    out.append(small("hrs", small=True))
-    out.append(small("max", small=True))
-    out.append(small("art", small=True))
-    out.append(small("pix", small=True))
-    out.append(small("mge"))
-    out.append(small("rat"))
-    out.append(small("cm3"))
-    out.append(small("vef"))
+    out.append(pick("hrs", 60, 400, lambda c: c.skip > 0, small=True))
+    out.append(pick("hrs", 40, 400, lambda c: c.skip == 0, small=True))
+    out.append(pick("max", 40, 400, lambda c: "-r" not in c.opts and "-i" not in c.opts, small=True))
+    out.append(pick("max", 40, 400, lambda c: "-r" in c.opts and "-i" in c.opts, small=True))
+    out.append(pick("art", 20, 400, small=True))
+    out.append(pick("pix", 30, 600, small=True))
+    out.append(pick("mge", 0, 2000, lambda c: not c.params["raw"]))
+    out.append(pick("rat", 0, 3000))
+    out.append(pick("cm3", 0, 9000, lambda c: c.params["pages"] == 1))
+    out.append(pick("cm3", 0, 20000, lambda c: c.params["pages"] == 2))
+    out.append(pick("vef", 0, 6000, lambda c: c.params["squashed"]))
+    # full-size files, strided
+    out.append(pick("vef", 10000, 40000, lambda c: not c.params["squashed"]))
+    out.append(pick("mge", 30000, 40000, lambda c: c.params["raw"]))
+    out.append(formats.gen_hrs(r, with_opts=False))
+    out.append(formats.gen_max(r, with_opts=False))
     return out
 
 
